@@ -74,6 +74,8 @@ type Action struct {
 	// keyed by the environment variable that names the file
 	Exit  int               `json:"exit,omitempty"`
 	Files map[string]string `json:"files,omitempty"`
+	// a failing Finish / FinishWait whose process exits 0: the failure lies in what it wrote (Files)
+	Exit0 bool `json:"exit0,omitempty"`
 	// FinishWait only: the positive back-off delay is a short one (shorter than the queue's
 	// wait-loop check interval) that elapses by itself; the next action must then be Stop or
 	// Elapse of the same queue (RunScenario clears the flag otherwise)
@@ -1004,7 +1006,7 @@ func (s *Sim) Do(a Action) StepObs {
 		}
 		if c, ok := s.open[a.Q]; ok {
 			r := Reply{}
-			if !a.Ok {
+			if !a.Ok && !a.Exit0 {
 				r.Exit = 1
 			}
 			if a.Exit != 0 {
